@@ -9,6 +9,7 @@ import (
 	"github.com/NethermindEth/juno/blockchain"
 	"github.com/NethermindEth/juno/blockchain/networks"
 	"github.com/NethermindEth/juno/core"
+	"github.com/NethermindEth/juno/db"
 	"github.com/NethermindEth/juno/service"
 	"github.com/NethermindEth/juno/utils/log"
 	"go.uber.org/zap"
@@ -450,6 +451,18 @@ func (c *Client) setL1Head(ctx context.Context) error {
 	// No finalised logs.
 	if maxFinalisedHead == nil {
 		return nil
+	}
+
+	// Never move the L1 head back to an older Starknet block: a log that the L1 node
+	// delivers late (e.g. replayed after a resubscription) can be the highest one left in
+	// nonFinalisedLogs although a newer commit has already been recorded.
+	switch stored, err := c.l2Chain.L1Head(); {
+	case err == nil:
+		if maxFinalisedHead.L2BlockNumber < stored.BlockNumber {
+			return nil
+		}
+	case !errors.Is(err, db.ErrKeyNotFound):
+		return fmt.Errorf("reading stored l1 head: %w", err)
 	}
 
 	head := &core.L1Head{
